@@ -468,6 +468,25 @@ func runC05(c *Ctx) {
 				// values that resemble symbol tables and version markers without being any
 				vals = looks[i/6%len(looks)]
 			}
+			if i%12 == 0 || i%12 == 9 {
+				// payloads a writer may keep by reference until Finish (lobs and strings of 64 bytes and more),
+				// followed by more source than any reader buffer holds: what was handed over must not change
+				// while the copy loop reads on
+				sz := []int{64, 100, 300, 5000}[i/12%4]
+				lob := func(b byte) []byte {
+					p := make([]byte, sz)
+					for j := range p {
+						p[j] = b + byte(j%23)
+					}
+					return p
+				}
+				vals = append(vals, model.BlobV(lob(0x80)), model.ClobV(lob('a')), model.StrV(string(lob('A'))),
+					model.ListV(model.BlobV(lob(0x10)), model.StructV(model.ClobV(lob('k')).WithField(model.T("lob")))))
+				for j := 0; j < 300; j++ {
+					vals = append(vals, model.StrV(fmt.Sprintf("filler string %03d behind the payloads....", j)))
+				}
+				vals = append(vals, model.BlobV(lob(0x40)), model.Int64V(int64(sz)))
+			}
 			rk := ReadCase{CaseSeed: cs, Binary: binary, P: 0.25, Vals: vals}
 			data, _, _, err := rk.render()
 			if err != nil {
